@@ -130,8 +130,9 @@ fn record_roundtrip(cj: &Value, tr: &mut Tr, st: &mut Stats) {
         }
     };
     let (text_ok, printed) = read_printed(&text);
-    let mut e = json!({"k": "roundtrip", "stage": "parse", "text_ok": text_ok, "printed": printed, "out": empty_circ(), "same": false, "text": clip(&text)});
-    match guarded(|| Circuit::from_qasm(&text)) {
+    let (via, r) = parse_text(&text, st);
+    let mut e = json!({"k": "roundtrip", "stage": "parse", "text_ok": text_ok, "printed": printed, "out": empty_circ(), "same": false, "via": via, "text": clip(&text)});
+    match r {
         Err(m) => {
             e["res"] = json!("panic");
             e["msg"] = json!(m);
@@ -154,6 +155,9 @@ fn record_roundtrip(cj: &Value, tr: &mut Tr, st: &mut Stats) {
 
 #[derive(Default)]
 struct Stats {
+    /// directory for the texts read through `Circuit::from_file` (empty: strings only)
+    dir: String,
+    texts: usize,
     roundtrips: usize,
     programs: usize,
     oks: usize,
@@ -230,6 +234,46 @@ fn render_stmt(regs: &[Value], s: &Value) -> String {
     }
 }
 
+/// `gate name(p1,..) a1,.. { body }`; a body parameter [k, d, f] is (k/d)*pi for f = 0 and (k/d)*p<f> otherwise
+fn render_def(d: &Value) -> String {
+    let np = d["np"].as_u64().unwrap();
+    let nq = d["nq"].as_u64().unwrap();
+    let ps: Vec<String> = (1..=np).map(|i| format!("p{i}")).collect();
+    let qs: Vec<String> = (1..=nq).map(|i| format!("a{i}")).collect();
+    let mut t = format!("gate {}{} {} {{", d["name"].as_str().unwrap(), if np > 0 { format!("({})", ps.join(",")) } else { String::new() }, qs.join(","));
+    for b in d["body"].as_array().unwrap() {
+        let args: Vec<String> = b["args"].as_array().unwrap().iter().map(|a| format!("a{a}")).collect();
+        match b["s"].as_str().unwrap() {
+            "gate" => {
+                let pv: Vec<String> = b["param"]
+                    .as_array()
+                    .unwrap()
+                    .iter()
+                    .map(|pe| {
+                        let (k, d, f) = (pe[0].as_i64().unwrap(), pe[1].as_i64().unwrap(), pe[2].as_i64().unwrap());
+                        if f == 0 {
+                            render_param("kpi_d", k, d)
+                        } else {
+                            let sign = if k < 0 { "-" } else { "" };
+                            match (k.abs(), d) {
+                                (1, 1) => format!("{sign}p{f}"),
+                                (a, 1) => format!("{sign}p{f}*{a}"),
+                                (a, d) => format!("{sign}p{f}*{a}/{d}"),
+                            }
+                        }
+                    })
+                    .collect();
+                let plist = if pv.is_empty() { String::new() } else { format!("({})", pv.join(",")) };
+                t += &format!(" {}{} {};", b["name"].as_str().unwrap(), plist, args.join(","));
+            }
+            "barrier" => t += &format!(" barrier {};", args.join(",")),
+            "U" => t += &format!(" U(pi/2,0,pi) {};", args[0]),
+            x => panic!("body statement {x}"),
+        }
+    }
+    t + " }\n"
+}
+
 /// layouts: std (qregs, creg, statements) / creg_first / late (the last qreg is declared after the statements)
 fn render_prog(p: &Value) -> String {
     let regs = p["regs"].as_array().unwrap();
@@ -238,6 +282,12 @@ fn render_prog(p: &Value) -> String {
     let mut t = String::from("OPENQASM 2.0;\ninclude \"qelib1.inc\";\n");
     let creg = if ncb > 0 { format!("creg c[{ncb}];\n") } else { String::new() };
     let decl = |r: &Value| format!("qreg {}[{}];\n", r["name"].as_str().unwrap(), r["size"]);
+    // user gate definitions (extended programs): before the registers, or between the declarations and the statements
+    let defs: String = p.get("defs").and_then(|d| d.as_array()).map(|ds| ds.iter().map(render_def).collect()).unwrap_or_default();
+    let defs_mid = p.get("deflay").and_then(|x| x.as_str()) == Some("mid");
+    if !defs_mid {
+        t += &defs;
+    }
     if layout == "creg_first" {
         t += &creg;
     }
@@ -247,6 +297,9 @@ fn render_prog(p: &Value) -> String {
     }
     if layout != "creg_first" {
         t += &creg;
+    }
+    if defs_mid {
+        t += &defs;
     }
     for s in p["stmts"].as_array().unwrap() {
         t += &render_stmt(regs, s);
@@ -262,14 +315,57 @@ fn circ_dist(x: f64, y: f64) -> f64 {
     ((x - y + 1.0).rem_euclid(2.0) - 1.0).abs()
 }
 
+/// Both public entry points read the same front end: every third text goes through a file and `Circuit::from_file`,
+/// the others through `Circuit::from_qasm` (`via` says which); the verdict does not depend on the route.
+fn parse_text(text: &str, st: &mut Stats) -> (&'static str, Result<Result<Circuit, String>, String>) {
+    st.texts += 1;
+    if st.texts % 3 == 0 && !st.dir.is_empty() {
+        let path = format!("{}/t{}.qasm", st.dir, st.texts % 16);
+        std::fs::write(&path, text).expect("write qasm file");
+        ("file", guarded(|| Circuit::from_file(&path)))
+    } else {
+        ("str", guarded(|| Circuit::from_qasm(text)))
+    }
+}
+
+/// one execution: render an EXTENDED abstract program (whole-register operands, user gate definitions; spec/Qasm.tla
+/// QParseX) and parse it with the real code
+fn record_parsex(p: &Value, tr: &mut Tr, st: &mut Stats) {
+    tr.group();
+    tr.emit(json!({"k": "begin", "what": "parsex"}));
+    st.programs += 1;
+    let text = render_prog(p);
+    let (via, r) = parse_text(&text, st);
+    let mut e = json!({"k": "parsex", "prog": p, "out": empty_circ(), "via": via, "text": clip(&text)});
+    match r {
+        Err(m) => {
+            e["res"] = json!("panic");
+            e["msg"] = json!(m);
+            st.panics += 1;
+        }
+        Ok(Err(m)) => {
+            e["res"] = json!("err");
+            e["msg"] = json!(clean(&m));
+            st.errs += 1;
+        }
+        Ok(Ok(c)) => {
+            e["res"] = json!("ok");
+            e["out"] = circ_json_safe(&c);
+            st.oks += 1;
+        }
+    }
+    tr.emit(e);
+}
+
 /// one execution: render the abstract program, parse it with the real code
 fn record_parse(p: &Value, tr: &mut Tr, st: &mut Stats) {
     tr.group();
     tr.emit(json!({"k": "begin", "what": "parse"}));
     st.programs += 1;
     let text = render_prog(p);
-    let mut e = json!({"k": "parse", "prog": p, "out": empty_circ(), "close": [], "tags": prog_tags(p), "text": clip(&text)});
-    match guarded(|| Circuit::from_qasm(&text)) {
+    let (via, r) = parse_text(&text, st);
+    let mut e = json!({"k": "parse", "prog": p, "out": empty_circ(), "close": [], "tags": prog_tags(p), "via": via, "text": clip(&text)});
+    match r {
         Err(m) => {
             e["res"] = json!("panic");
             e["msg"] = json!(m);
@@ -342,13 +438,19 @@ fn record_names(tr: &mut Tr) -> usize {
         let (name, back) = r.unwrap_or(("PANIC", "PANIC".to_string()));
         tr.emit(json!({"k": "name", "kind": k, "name": name, "back": back}));
     }
+    // GType::num_qubits: the fixed arity of a kind (-1: none)
+    for k in kinds {
+        let t = crate::circ::gtype_from(k);
+        let nq: i64 = guarded(|| t.num_qubits().map_or(-1, |n| n as i64)).unwrap_or(-99);
+        tr.emit(json!({"k": "arity", "kind": k, "nq": nq}));
+    }
     let names = ["rz", "rx", "x", "z", "s", "t", "sdg", "tdg", "h", "cx", "CX", "cz", "ccx", "ccz", "swap", "pp", "xcx", "init_anc", "post_sel",
                  "measure_d", "measure_r", "UNKNOWN", "y", "u3", "RZ", "Cx", "", "cnot", "measure"];
     for n in names {
         let kind = guarded(|| format!("{:?}", GType::from_qasm_name(n))).unwrap_or("PANIC".to_string());
         tr.emit(json!({"k": "fromname", "name": n, "kind": kind}));
     }
-    kinds.len() + names.len()
+    2 * kinds.len() + names.len()
 }
 
 fn gate_stmt(name: &str, params: &[(i64, i64)], form: &str, args: &[(usize, i64)]) -> Value {
@@ -603,6 +705,10 @@ pub fn record(args: &[String], seed: u64, tr: &mut Tr) -> Value {
         }
     }
     let mut st = Stats::default();
+    if let Some(out) = arg_val(args, "--out") {
+        st.dir = format!("{out}_files");
+        std::fs::create_dir_all(&st.dir).expect("create dir for qasm files");
+    }
     let stride: usize = arg_num(args, "--stride", 1).max(1);
     let offset = seed as usize % stride;
     let mut r = crate::gens::rng(seed ^ 0x9a53);
@@ -674,5 +780,272 @@ pub fn record(args: &[String], seed: u64, tr: &mut Tr) -> Value {
         let p = random_prog(&mut r);
         record_parse(&p, tr, &mut st);
     }
+    // ---- extended programs: whole-register operands and user gate definitions ----
+    if arg_flag(args, "--enum-xprogs") {
+        let mut idx = 0usize;
+        enum_xprogs(&mut |p| {
+            if idx % stride == offset {
+                record_parsex(&p, tr, &mut st);
+            }
+            idx += 1;
+        });
+        // Circuit::from_file on a path that does not exist / a directory / an empty file
+        tr.group();
+        tr.emit(json!({"k": "begin", "what": "fromfile"}));
+        let empty = format!("{}/empty.qasm", st.dir);
+        std::fs::write(&empty, "").unwrap();
+        for (case, path) in [("missing", format!("{}/no_such_file.qasm", st.dir)), ("directory", st.dir.clone()), ("empty", empty)] {
+            let (res, out) = match guarded(|| Circuit::from_file(&path)) {
+                Err(_) => ("panic", empty_circ()),
+                Ok(Err(_)) => ("err", empty_circ()),
+                Ok(Ok(c)) => ("ok", circ_json_safe(&c)),
+            };
+            tr.emit(json!({"k": "fromfile", "case": case, "res": res, "out": out}));
+        }
+    }
+    for _ in 0..arg_num(args, "--xprogs", 0usize) {
+        let p = random_xprog(&mut r);
+        record_parsex(&p, tr, &mut st);
+    }
+    let _ = std::fs::remove_dir_all(&st.dir);
     json!({"roundtrips": st.roundtrips, "programs": st.programs, "ok": st.oks, "err": st.errs, "panic": st.panics, "name_rows": nnames})
+}
+
+// ---------------------------------------------------------------------------------------
+// extended programs (spec/Qasm.tla QParseX): whole-register operands and user gate definitions
+// ---------------------------------------------------------------------------------------
+
+fn bgate(name: &str, params: &[(i64, i64, i64)], args: &[usize]) -> Value {
+    json!({"s": "gate", "name": name, "param": params.iter().map(|(k, d, f)| json!([k, d, f])).collect::<Vec<_>>(), "args": args})
+}
+
+fn def(name: &str, np: usize, nq: usize, body: Vec<Value>) -> Value {
+    json!({"name": name, "np": np, "nq": nq, "body": body})
+}
+
+fn xprog(regs: &[(&str, usize)], defs: Vec<Value>, deflay: &str, layout: &str, stmts: Vec<Value>) -> Value {
+    let mut p = prog(regs, 1, layout, stmts);
+    p["defs"] = json!(defs);
+    p["deflay"] = json!(deflay);
+    p
+}
+
+/// the library of definitions the systematic family draws from
+fn sample_defs() -> Vec<Value> {
+    vec![
+        def("g1", 0, 1, vec![bgate("h", &[], &[1]), bgate("t", &[], &[1])]),
+        def("g2", 1, 2, vec![bgate("rz", &[(1, 1, 1)], &[1]), bgate("cx", &[], &[1, 2]), bgate("rz", &[(1, 2, 1)], &[2]), bgate("rx", &[(-3, 4, 1)], &[1]), bgate("rz", &[(1, 4, 0)], &[2])]),
+        def("g3", 2, 3, vec![bgate("g2", &[(1, 1, 2)], &[2, 3]), bgate("g1", &[], &[1]), bgate("ccx", &[], &[3, 1, 2]), bgate("CX", &[], &[3, 1]), bgate("rx", &[(2, 1, 1)], &[3])]),
+        def("nop", 0, 1, vec![]),
+        def("sw", 0, 2, vec![bgate("swap", &[], &[2, 1]), bgate("cz", &[], &[1, 2])]),
+        // bodies with constructs the writer does not support, and with an undefined name
+        def("gb", 0, 2, vec![bgate("h", &[], &[1]), json!({"s": "barrier", "args": [1, 2]}), bgate("cx", &[], &[1, 2])]),
+        def("gu", 0, 1, vec![bgate("x", &[], &[1]), json!({"s": "U", "args": [1]})]),
+        def("gy", 0, 1, vec![bgate("y", &[], &[1])]),
+        def("gg", 0, 2, vec![bgate("gb", &[], &[2, 1])]),
+    ]
+}
+
+fn enum_xprogs(emit: &mut impl FnMut(Value)) {
+    // (a) broadcast of every gate of the property's list over register shapes (equal sizes, size-1 registers, mismatches)
+    let shapes: [&[(&str, usize)]; 7] = [&[("q", 2)], &[("q", 3)], &[("q", 2), ("r", 2)], &[("a", 3), ("b", 1), ("d", 3)], &[("q", 1), ("r", 3)],
+                                         &[("q", 2), ("r", 3)], &[("q", 2), ("r", 2), ("s", 2)]];
+    for regs in shapes {
+        let nr = regs.len();
+        let mut stmts: Vec<Value> = vec![];
+        for (name, hasp, nq) in PROP_GATES {
+            let params: Vec<(i64, i64)> = if hasp { vec![(3, 4)] } else { vec![] };
+            // all-whole, and each position indexed in turn
+            let pick = |i: usize| ((i % nr) + 1, -1i64);
+            if nq > nr {
+                // not enough registers for distinct whole operands: one whole register and indexed qubits of it is an overlap (expected err),
+                // so use indexed qubits of the first register where it is large enough
+                if regs[0].1 >= nq {
+                    stmts.push(gate_stmt(name, &params, "kpi_d", &(0..nq).map(|b| (1usize, b as i64)).collect::<Vec<_>>()));
+                }
+                continue;
+            }
+            stmts.push(gate_stmt(name, &params, "kpi_d", &(0..nq).map(pick).collect::<Vec<_>>()));
+            for fixed in 0..nq {
+                if nq == 1 {
+                    continue;
+                }
+                let args: Vec<(usize, i64)> = (0..nq).map(|i| if i == fixed { ((i % nr) + 1, (regs[i % nr].1 - 1) as i64) } else { pick(i) }).collect();
+                stmts.push(gate_stmt(name, &params, "kpi_d", &args));
+            }
+        }
+        // one program per statement (an error in one must not hide the others), plus all of the accepted ones together
+        for s in &stmts {
+            emit(xprog(regs, vec![], "first", "std", vec![s.clone()]));
+        }
+        for chunk in stmts.chunks(6) {
+            emit(xprog(regs, vec![], "first", "creg_first", chunk.to_vec()));
+        }
+        // a whole register used twice in one statement (overlap) and a whole-register measure
+        if nr >= 1 && regs[0].1 >= 2 {
+            emit(xprog(regs, vec![], "first", "std", vec![gate_stmt("cx", &[], "kpi_d", &[(1, -1), (1, -1)])]));
+            emit(xprog(regs, vec![], "first", "std", vec![gate_stmt("cx", &[], "kpi_d", &[(1, -1), (1, 0)])]));
+        }
+    }
+    // (b) user definitions: every definition of the library applied to indexed qubits, to whole registers, and not at all
+    let lib = sample_defs();
+    let regs: &[(&str, usize)] = &[("q", 3), ("r", 3), ("s", 1)];
+    let by = |n: &str| lib.iter().find(|d| d["name"] == n).unwrap().clone();
+    let needs = |n: &str| -> Vec<Value> {
+        match n {
+            "g3" => vec![by("g1"), by("g2"), by("g3")],
+            "gg" => vec![by("gb"), by("gg")],
+            x => vec![by(x)],
+        }
+    };
+    for d in &lib {
+        let name = d["name"].as_str().unwrap();
+        let (np, nq) = (d["np"].as_u64().unwrap() as usize, d["nq"].as_u64().unwrap() as usize);
+        let params: Vec<(i64, i64)> = [(1, 2), (-3, 8)][..np].to_vec();
+        let idx_args: Vec<(usize, i64)> = [(1, 2), (2, 0), (1, 0)][..nq].to_vec();
+        let whole_args: Vec<(usize, i64)> = [(1, -1), (2, -1), (3, -1)][..nq].to_vec();
+        let mixed_args: Vec<(usize, i64)> = [(2, -1), (1, 1), (3, 0)][..nq].to_vec();
+        let h = gate_stmt("h", &[], "kpi_d", &[(2, 1)]);
+        for deflay in ["first", "mid"] {
+            for args in [&idx_args, &whole_args, &mixed_args] {
+                emit(xprog(regs, needs(name), deflay, "std", vec![h.clone(), gate_stmt(name, &params, "kpi_d", args), h.clone()]));
+            }
+            // defined, never applied
+            emit(xprog(regs, needs(name), deflay, "std", vec![h.clone()]));
+            emit(xprog(regs, needs(name), deflay, "std", vec![]));
+        }
+        // other spellings of the actual parameter
+        if np > 0 {
+            for form in ["pi_frac", "frac_pi", "dec_pi", "paren"] {
+                emit(xprog(regs, needs(name), "first", "std", vec![gate_stmt(name, &params, form, &idx_args)]));
+            }
+        }
+    }
+    // ill-typed uses (compared with the specification as refinement only): wrong arity, wrong number of parameters,
+    // a prelude gate redefined, a definition given twice, the same qubit twice
+    let g2 = by("g2");
+    for stmts in [
+        vec![gate_stmt("g2", &[(1, 2)], "kpi_d", &[(1, 0)])],
+        vec![gate_stmt("g2", &[], "kpi_d", &[(1, 0), (2, 0)])],
+        vec![gate_stmt("g2", &[(1, 2)], "kpi_d", &[(1, 0), (1, 0)])],
+        vec![gate_stmt("g2", &[(1, 2)], "kpi_d", &[(1, -1), (3, -1)]), gate_stmt("h", &[], "kpi_d", &[(1, 0)])],
+    ] {
+        emit(xprog(regs, vec![g2.clone()], "first", "std", stmts));
+    }
+    emit(xprog(regs, vec![def("h", 0, 1, vec![bgate("t", &[], &[1])])], "first", "std", vec![gate_stmt("h", &[], "kpi_d", &[(1, 0)])]));
+    emit(xprog(regs, vec![by("g1"), by("g1")], "first", "std", vec![gate_stmt("g1", &[], "kpi_d", &[(1, 0)])]));
+}
+
+fn random_xprog(r: &mut StdRng) -> Value {
+    let pool = ["q", "r", "anc", "a", "b", "data", "q1", "reg_2", "zz", "c0"];
+    let nregs = r.random_range(1..=3usize);
+    let mut names: Vec<&str> = pool.to_vec();
+    shuffle(r, &mut names);
+    // registers of one common size (so that whole-register operands usually match), some of size 1, rarely another size
+    let common = r.random_range(2..=3usize);
+    let regs: Vec<(&str, usize)> = (0..nregs).map(|i| (names[i], if r.random_bool(0.2) { 1 } else if r.random_bool(0.1) { 5 - common } else { common })).collect();
+    let total: usize = regs.iter().map(|x| x.1).sum();
+    // 0..2 definitions; the second may call the first
+    let ndefs = r.random_range(0..=2usize);
+    let mut defs: Vec<Value> = vec![];
+    let bad_kind = if r.random_bool(0.25) { r.random_range(1..=3) } else { 0 }; // 1 barrier in a body, 2 U in a body, 3 undefined name in a body
+    for di in 0..ndefs {
+        let nq = r.random_range(1..=3usize);
+        let np = r.random_range(0..=2usize);
+        let nb = r.random_range(0..=4usize);
+        let mut body = vec![];
+        for _ in 0..nb {
+            let mut cands: Vec<(String, usize, usize)> = PROP_GATES.iter().filter(|g| g.2 <= nq && g.0 != "init_anc" && g.0 != "post_sel").map(|g| (g.0.to_string(), g.1 as usize, g.2)).collect();
+            cands.push(("CX".to_string(), 0, 2));
+            cands.retain(|c| c.2 <= nq);
+            if di == 1 {
+                let d0 = &defs[0];
+                if (d0["nq"].as_u64().unwrap() as usize) <= nq {
+                    for _ in 0..4 {
+                        cands.push(("u0".to_string(), d0["np"].as_u64().unwrap() as usize, d0["nq"].as_u64().unwrap() as usize));
+                    }
+                }
+            }
+            let (name, npar, ar) = cands[r.random_range(0..cands.len())].clone();
+            let mut fs: Vec<usize> = (1..=nq).collect();
+            shuffle(r, &mut fs);
+            let params: Vec<(i64, i64, i64)> = (0..npar)
+                .map(|_| {
+                    let (k, d) = random_phase(r);
+                    let f = if np > 0 && r.random_bool(0.6) { r.random_range(1..=np as i64) } else { 0 };
+                    // a multiple of a formal parameter: small factors
+                    if f > 0 {
+                        ([1, -1, 2, 3, -3, 1, 1][r.random_range(0..7)], [1, 2, 4][r.random_range(0..3)], f)
+                    } else {
+                        (k, d, 0)
+                    }
+                })
+                .collect();
+            body.push(bgate(&name, &params, &fs[..ar]));
+        }
+        if bad_kind > 0 && di == ndefs - 1 {
+            let at = r.random_range(0..=body.len());
+            let bad = match bad_kind {
+                1 => json!({"s": "barrier", "args": (1..=nq).collect::<Vec<_>>()}),
+                2 => json!({"s": "U", "args": [1]}),
+                _ => bgate(["y", "u3x", "id"][r.random_range(0..3)], &[], &[1]),
+            };
+            body.insert(at, bad);
+        }
+        defs.push(def(&format!("u{di}"), np, nq, body));
+    }
+    let nst = if r.random_bool(0.05) { 0 } else { r.random_range(1..=5usize) };
+    let mut stmts = vec![];
+    for _ in 0..nst {
+        let mut cands: Vec<(String, usize, usize)> = PROP_GATES.iter().map(|g| (g.0.to_string(), g.1 as usize, g.2)).collect();
+        for d in &defs {
+            for _ in 0..6 {
+                cands.push((d["name"].as_str().unwrap().to_string(), d["np"].as_u64().unwrap() as usize, d["nq"].as_u64().unwrap() as usize));
+            }
+        }
+        cands.retain(|c| c.2 <= total);
+        let (name, npar, ar) = cands[r.random_range(0..cands.len())].clone();
+        // operands: distinct registers as whole operands where possible, otherwise distinct indexed qubits
+        let mut regidx: Vec<usize> = (1..=nregs).collect();
+        shuffle(r, &mut regidx);
+        let mut refs = all_refs(&regs);
+        shuffle(r, &mut refs);
+        let mut args: Vec<(usize, i64)> = vec![];
+        let mut used_regs: Vec<usize> = vec![];
+        for i in 0..ar {
+            let whole = r.random_bool(0.45) && i < regidx.len() && !used_regs.contains(&regidx[i]);
+            if whole {
+                args.push((regidx[i], -1));
+                used_regs.push(regidx[i]);
+            } else if let Some(p) = refs.iter().position(|x| !used_regs.contains(&x.0) && !args.contains(x)) {
+                let x = refs.remove(p);
+                // an indexed qubit of a register that is also used as a whole operand would overlap: keep them apart (mostly)
+                args.push(x);
+                if r.random_bool(0.9) {
+                    used_regs.push(x.0);
+                }
+            } else if let Some(x) = refs.pop() {
+                args.push(x);
+            }
+        }
+        if args.len() < ar {
+            continue;
+        }
+        let params: Vec<(i64, i64)> = (0..npar).map(|_| random_phase(r)).collect();
+        let forms: Vec<&str> = EXACT_FORMS.iter().copied().filter(|f| *f != "pi_d").collect();
+        stmts.push(gate_stmt(&name, &params, forms[r.random_range(0..forms.len())], &args));
+    }
+    // one program in eight: an unsupported statement at top level
+    if r.random_bool(0.125) {
+        let bads = unsupported_stmts();
+        let bad = bads[r.random_range(0..bads.len())].clone();
+        // only those whose references exist here: register 1, bit 0 / whole register 1
+        let ok = bad["s"] != "if" && bad.get("args").and_then(|a| a.as_array()).map(|a| a.iter().all(|x| x[0] == 1 && x[1].as_i64().unwrap() <= 0)).unwrap_or(false);
+        if ok {
+            let at = r.random_range(0..=stmts.len());
+            stmts.insert(at, bad);
+        }
+    }
+    let layout = ["std", "creg_first", "late"][r.random_range(0..3)];
+    xprog(&regs, defs, ["first", "mid"][r.random_range(0..2)], layout, stmts)
 }
